@@ -31,6 +31,8 @@
 #include <condition_variable>
 #include <iostream>
 
+#include <tbox/base/verif_hooks.h>
+
 namespace tbox {
 namespace util {
 
@@ -212,6 +214,7 @@ void AsyncPipe::Impl::cleanup()
     if (!inited_)
         return;
 
+    TBOX_VERIF_SCHED_POINT("async_pipe.cleanup_before_stop");
     stop_signal_ = true;
     full_buffers_cv_.notify_all();
     backend_thread_.join();
@@ -261,6 +264,7 @@ void AsyncPipe::Impl::appendLockless(const void *data_ptr, size_t data_size)
                     free_buffers_.push_back(new Buffer(cfg_.buff_size));
                 } else {  //! 否则只能等待后端释放
                     buff_num_mutex_.unlock();
+                    TBOX_VERIF_SCHED_POINT("async_pipe.producer_wait_free_buffer");
                     free_buffers_cv_.wait(lk, [this] { return !free_buffers_.empty(); });
                 }
             }
@@ -305,6 +309,7 @@ void AsyncPipe::Impl::threadFunc()
                             is_wake_for_timeup = false;
                             return true;
                         }
+                        TBOX_VERIF_SCHED_POINT("async_pipe.pred_false");
                         return false;
                     }
                 );
@@ -315,6 +320,7 @@ void AsyncPipe::Impl::threadFunc()
 
         //! 如果是超时或是收到停止信号，则先将 curr_buff_ 移到 full_buffers_
         if (is_wake_for_timeup || is_wake_for_quit) {
+            TBOX_VERIF_SCHED_POINT("async_pipe.flush_before_trylock");
             if (curr_buffer_mutex_.try_lock()) {
                 if (curr_buffer_ != nullptr) {
                     //! Q: 这里为什么不锁 full_buffers_mutex_ ?
